@@ -57,21 +57,42 @@ def run(rep, tier, seed):
             stmts.append(f"x[{idx}] {op} {src}")
             reqs.append({"id": len(reqs), "mode": "session", "stmts": stmts,
                          "opts": {"store": True, "names": ["x"], "arm": True}})
-            meta.append((cs, kind))
+            meta.append((cs, kind, ""))
+            # the same statement with index AND source held by variables (a third of the f64 cases)
+            if kind == "f64" and n % 4 == 0:
+                pre = []; parts = []
+                for q, f in enumerate([cs["f1"]] + ([cs["f2"]] if cs["nd"] == 2 else [])):
+                    if f["f"] == "a": parts.append(":")
+                    else:
+                        pre.append(f"i{q + 1} := {render_form(f, 'f64', (n % 2 == 1) if q == 0 else (n % 2 == 0))}"); parts.append(f"i{q + 1}")
+                pre.append(f"sv := {src}")
+                reqs.append({"id": len(reqs), "mode": "session", "stmts": [stmts[0]] + pre + [f"x[{','.join(parts)}] {op} sv"],
+                             "opts": {"store": True, "names": ["x"], "arm": True}})
+                meta.append((cs, kind, "/var"))
     log(f"[C04] replaying {len(reqs)} cases on the interpreter")
     outs = execpool.run_requests(reqs, nworkers=16, timeout=120)
     arms = set(); rejected = []; tally = collections.Counter(); cal = collections.defaultdict(collections.Counter)
-    for req, (resp, oc), (cs, kind) in zip(reqs, outs, meta):
-        sig = cs["sig"]
+    unbuildable = 0
+    deferred = []; literal_sigs = set()
+    real_fail = rep.fail
+    def fail(sg, what, rp):
+        # a variable-operand variant that fails exactly like its literal twin is the same defect: same signature
+        if "/var" in sg: deferred.append((sg, what, rp))
+        else: literal_sigs.add(sg); real_fail(sg, what, rp)
+    rep.fail = fail
+    for req, (resp, oc), (cs, kind, variant) in zip(reqs, outs, meta):
+        sig = cs["sig"] + variant
         replay = {"stmts": req["stmts"], "case": cs, "kind": kind}
         if oc != "ok" or "steps" not in (resp or {}):
             rep.fail(sig + "/host-" + oc, f"{req['stmts']} -> interpreter process {oc}", replay); continue
         st = resp["steps"]
         if st[0].get("r") != "ok":
             rep.fail("C04/setup/" + kind, f"operand could not be built: {req['stmts'][0]} -> {st[0].get('class')}", replay); continue
-        asg = st[1]
+        if any(x.get("r") != "ok" for x in st[1:-1]):
+            unbuildable += 1; continue          # an index / source value that cannot be held by a variable (e.g. an empty range)
+        asg = st[-1]
         if asg.get("p") != "ok" or not (asg.get("shape") and asg["shape"][0].startswith("MechCode")):
-            rep.fail(sig + "/noparse", f"{req['stmts'][1]} did not parse as code: {asg.get('p')} {asg.get('shape')}", replay); continue
+            rep.fail(sig + "/noparse", f"{req['stmts'][-1]} did not parse as code: {asg.get('p')} {asg.get('shape')}", replay); continue
         arms.add(asg.get("arm"))
         xs = asg.get("store", {}).get("x")
         r, c = cs["r"], cs["c"]
@@ -84,9 +105,11 @@ def run(rep, tier, seed):
         cal[sig][("ok-post" if got == post else "ok-other") if ok else ("err-unchanged" if got == pre else "err-changed")] += 1
         if not ok:
             if got != pre:
-                rep.fail("C04/failure-not-atomic/" + sig.split("/")[-1], f"{req['stmts']} failed ({asg.get('class')}) but x is now {shown}", replay); continue
-            if exp == "exact":
-                rejected.append((cs, kind, req, asg, replay))
+                rep.fail("C04/failure-not-atomic/" + cs["sig"].split("/")[-1], f"{req['stmts']} failed ({asg.get('class')}) but x is now {shown}", replay); continue
+            if exp == "exact" and variant:
+                tally["free"] += 1; tally["var_form_not_accepted"] += 1     # which forms accept variable-held operands is not specified
+            elif exp == "exact":
+                rejected.append((cs, kind, req, asg, replay, variant))
             else: tally["reject_ok" if exp == "reject" else "free"] += 1
             continue
         # statement succeeded
@@ -111,21 +134,25 @@ def run(rep, tier, seed):
             rep.fail(sig + kindsig, f"{req['stmts']} gives x = {shown}, expected {absval.short(post)}", replay)
     # a supported form rejected only for some element kinds is a missing generated arm for that kind
     f64_ok = set()
-    for req, (resp, oc), (cs, kind) in zip(reqs, outs, meta):
-        if kind == "f64" and oc == "ok" and resp and resp.get("steps") and len(resp["steps"]) > 1 and resp["steps"][1].get("r") == "ok":
+    for req, (resp, oc), (cs, kind, variant) in zip(reqs, outs, meta):
+        if kind == "f64" and not variant and oc == "ok" and resp and resp.get("steps") and len(resp["steps"]) > 1 and resp["steps"][1].get("r") == "ok":
             f64_ok.add(id(cs))
-    for cs, kind, req, asg, replay in rejected:
+    for cs, kind, req, asg, replay, variant in rejected:
         if kind != "f64" and id(cs) in f64_ok:
             fsig = f"C04/kind-arm-missing/{kind}/" + "/".join(cs["sig"].split("/")[1:3])
         else:
-            fsig = cs["sig"] + "/rejects-supported"
+            fsig = cs["sig"] + variant + "/rejects-supported"
         rep.fail(fsig, f"{req['stmts']} rejected ({asg.get('class')}) but the form is supported", replay)
+    rep.fail = real_fail
+    for sg, what, rp in deferred:
+        base = sg.replace("/var", "")
+        rep.fail(base if base in literal_sigs else sg, what, rp)
     if os.environ.get("VERIF_CALIBRATE"):
         for s in sorted(cal): print("CAL", s, dict(cal[s]))
     rep.cov.update({"states": t.generated, "transitions": max(t.generated - 1, 1), "distinct_states": t.distinct,
                     "traces_validated_against_impl": len(reqs), "cases_emitted": len(cases), "cases_replayed": len(reqs),
                     "exact_matched": tally["exact_ok"], "rejects_matched": tally["reject_ok"], "frame_only": tally["frame_ok"],
-                    "free_outcomes": tally["free"], "arms_hit": len(arms), "exhaustive": True,
+                    "free_outcomes": tally["free"], "variable_operand_forms_not_accepted(free)": tally["var_form_not_accepted"], "variable_operand_unbuildable": unbuildable, "arms_hit": len(arms), "exhaustive": True,
                     "rule": "every (shape, index form pair incl. out-of-range and wrong-length masks, scalar/vector source, operator = += -= *= /=) of the bounded MechIndex Update model; the whole matrix is compared after the statement (frame, written cells, shape, kind), also after failures"})
     rep.add_samples([{"stmts": r["stmts"], "exp": m[0]["exp"], "sig": m[0]["sig"], "post": m[0]["post"]} for r, m in zip(reqs, meta)])
     rep.assumptions += ["TLC 1.8.0", "harness projection", "renderer lib/render.py", "Supported tables in spec/MC_C04.tla"]
